@@ -34,11 +34,21 @@ ConcaveOK(gg) == /\ \A r \in 1 .. Len(gg) : gg[r].n <= 5
                  /\ \E h \in 1 .. Len(gg) : gg[h].parent # 0
                  /\ \A h \in 1 .. Len(gg) : gg[h].parent # 0 => gg[h].n >= 4 /\ gg[gg[h].parent].n >= 4
 
+\* ids: the assignment of node (and way) ids is part of the case.  mode "" = ids of the placement profile; "zero" = the
+\* vertex z is the node with id 0, the others small positive; "span" = consecutive ids around 0 (vertex z is 0, lower
+\* symbols negative); "neg" = all node ids negative; "i31" / "i32" = node ids straddling 2^31 / 2^32 (vertex z sits exactly
+\* on the power of two; way ids start just below it).  z is a vertex of some member way: an end point or an inner node.
+IdModes == <<"zero", "", "span", "i31", "neg", "i32", "zero", "">>
+IdsOf(ms) == LET a == Len(ms[1].nodes) + Idx(ms[Len(ms)].nodes[1])
+                 k == 1 + ((a + Len(ms)) % Len(ms))
+                 j == 1 + ((a + Idx(ms[1].nodes[Len(ms[1].nodes)])) % Len(ms[k].nodes))
+             IN [mode |-> IdModes[1 + ((a + 3 * Len(ms) + Idx(ms[1].nodes[1])) % Len(IdModes))], z |-> ms[k].nodes[j]]
+
 \* place: which placement the renderer uses: "" (seeded magnitude profile), "grid", "near", "tiny", "concave"
 CaseRec(gg, ms, place) ==
   [g |-> gg, members |-> ms, masks |-> MasksOf(ms), vers |-> MasksOf(ms),
    rtype |-> IF Idx(ms[Len(ms)].nodes[1]) % 2 = 1 THEN "multipolygon" ELSE "boundary",
-   norder |-> (Idx(ms[1].nodes[1]) + Len(ms)) % 3, place |-> place]
+   norder |-> (Idx(ms[1].nodes[1]) + Len(ms)) % 3, place |-> place, ids |-> IdsOf(ms)]
 
 SimCase == LET n == Len(members)
                pl == IF MultiOuterWithHole(g) THEN RandomElement({"grid", "grid", "near", ""})
@@ -46,7 +56,8 @@ SimCase == LET n == Len(members)
   [g |-> g, members |-> members,
    masks |-> <<NoneMask(n), AllMask(n), RandomElement([1 .. n -> BOOLEAN])>>,
    vers |-> <<NoneMask(n), RandomElement([1 .. n -> BOOLEAN]), RandomElement([1 .. n -> BOOLEAN])>>,
-   rtype |-> RandomElement({"multipolygon", "boundary"}), norder |-> RandomElement({0, 1, 2}), place |-> pl]
+   rtype |-> RandomElement({"multipolygon", "boundary"}), norder |-> RandomElement({0, 1, 2}), place |-> pl,
+   ids |-> [mode |-> RandomElement({"zero", "", "span", "i31", "neg", "i32"}), z |-> RandomElement(AllSyms(g))]]
 
 Complete == cutr > Len(g) /\ pool = {}
 Write(c) == CSVWrite("%1$s", <<ToJson(c)>>, IOEnv.OUT)
